@@ -10,6 +10,8 @@ open Gp Gp.Gen.Ip6
 theorem Res.bind_eq_ok' {α β} (r : Res α) (f : α → Res β) (a : α) (h : r = .ok a) :
     (r >>= f) = f a := by subst h; rfl
 
+@[simp] theorem Res.pure_eq_ok {α} (a : α) : (pure a : Res α) = .ok a := rfl
+
 /-! ## Views: in-range indexing and slicing -/
 
 theorem index_lt (s : Bytes) (i : Nat) (h : i < s.length) : index s i = .ok (s[i]) := by
@@ -121,5 +123,204 @@ theorem decodeTlvSpec_ok (b : Bytes) (o : Tlv) (tr : Bool) (h : decodeTlvSpec b 
         · simp only [Prod.mk.injEq, Res.ok.injEq] at h
           obtain ⟨h1, h2⟩ := h
           subst h1; simp [h2.symm]; omega
+
+/-! ## The option loop: closed form on the option area -/
+
+/-- The loop of DecodeFromBytes on the option area (the bytes `data[offset:ActualLength]` still
+    to be consumed). -/
+def tlvAreaSpec : Nat → Bytes → (List Tlv × Bool × Res Unit)
+  | _, [] => ([], false, .ok ())
+  | 0, _ :: _ => ([], false, .panic .explicit)
+  | fuel + 1, a :: as =>
+    match decodeTlvSpec (a :: as) with
+    | (.panic k, tr) => ([], tr, .panic k)
+    | (.err e, tr) => ([], tr, .err e)
+    | (.ok o, tr) =>
+      let r := tlvAreaSpec fuel ((a :: as).drop o.alen)
+      (o :: r.1, tr || r.2.1, r.2.2)
+
+theorem tlvLoop_eq_spec (b x : Bytes) (al : Nat) (hal : al ≤ b.length) :
+    ∀ (fuel off : Nat), off ≤ al →
+      tlvLoop ⟨b, x⟩ al fuel off = tlvAreaSpec fuel ((b.take al).drop off) := by
+  intro fuel
+  induction fuel with
+  | zero =>
+    intro off hoff
+    unfold tlvLoop
+    by_cases h : off < al
+    · simp only [h, if_true]
+      have hl : ((b.take al).drop off).length = al - off := by
+        rw [List.length_drop, List.length_take]; omega
+      match hm : (b.take al).drop off with
+      | [] => rw [hm] at hl; simp at hl; omega
+      | _ :: _ => simp [tlvAreaSpec]
+    · have : (b.take al).drop off = [] := by
+        apply List.drop_eq_nil_of_le; rw [List.length_take]; omega
+      simp [h, this, tlvAreaSpec]
+  | succ fuel ih =>
+    intro off hoff
+    unfold tlvLoop
+    by_cases h : off < al
+    · simp only [h, if_true]
+      rw [View.slice_le _ off al (by omega) (by simp [View.len]; omega)]
+      simp only [decodeTlv_eq_spec]
+      have harea : (b.drop off).take (al - off) = (b.take al).drop off := by
+        rw [List.drop_take]
+      rw [harea]
+      have hl : ((b.take al).drop off).length = al - off := by
+        rw [List.length_drop, List.length_take]; omega
+      match hm : (b.take al).drop off with
+      | [] => rw [hm] at hl; simp at hl; omega
+      | a :: as =>
+        simp only [tlvAreaSpec]
+        match hd : decodeTlvSpec (a :: as) with
+        | (.panic k, tr) => rfl
+        | (.err e, tr) => rfl
+        | (.ok o, tr) =>
+          obtain ⟨h1, h2, -⟩ := decodeTlvSpec_ok _ o tr hd
+          have h3 : o.alen ≤ al - off := by rw [← hl, hm]; exact h2
+          simp only
+          rw [ih (off + o.alen) (by omega), ← hm, List.drop_drop]
+    · have : (b.take al).drop off = [] := by
+        apply List.drop_eq_nil_of_le; rw [List.length_take]; omega
+      simp [h, this, tlvAreaSpec]
+
+/-- With at least as much fuel as bytes the loop never runs out of fuel and never panics. -/
+theorem tlvAreaSpec_ne_panic : ∀ (fuel : Nat) (area : Bytes), area.length ≤ fuel →
+    ∀ k, (tlvAreaSpec fuel area).2.2 ≠ .panic k := by
+  intro fuel
+  induction fuel with
+  | zero =>
+    intro area h k
+    match area with
+    | [] => simp [tlvAreaSpec]
+    | _ :: _ => simp at h
+  | succ fuel ih =>
+    intro area h k
+    match area with
+    | [] => simp [tlvAreaSpec]
+    | a :: as =>
+      simp only [tlvAreaSpec]
+      match hd : decodeTlvSpec (a :: as) with
+      | (.panic k', tr) => exact absurd (by rw [hd]) (decodeTlvSpec_ne_panic (a :: as) k')
+      | (.err e, tr) => simp
+      | (.ok o, tr) =>
+        obtain ⟨h1, h2, -⟩ := decodeTlvSpec_ok _ o tr hd
+        simp only
+        apply ih
+        rw [List.length_drop]
+        simp only [List.length_cons] at h h2 ⊢
+        omega
+
+/-! ## decodeIPv6ExtensionBase: closed form -/
+
+def extBaseSpec (b : Bytes) : Res ExtBase × Bool :=
+  match b with
+  | nh :: hl :: _ =>
+    let al := hl.toNat * 8 + 8
+    if b.length < al then (.err "Invalid ip6-extension header (specified length)", false)
+    else (.ok { contents := b.take al, payload := b.drop al, nextHeader := nh.toNat,
+                headerLength := hl.toNat, actualLength := al }, false)
+  | _ => (.err "Invalid ip6-extension header (less than 2)", true)
+
+theorem decodeExtBase_eq_spec (v : View) : decodeExtBase v = extBaseSpec v.b := by
+  obtain ⟨b, x⟩ := v
+  match b with
+  | [] => simp [decodeExtBase, extBaseSpec, View.len]
+  | [_] => simp [decodeExtBase, extBaseSpec, View.len]
+  | nh :: hl :: rest =>
+    simp only [decodeExtBase, extBaseSpec, View.len, List.length_cons]
+    have h2 : ¬ (rest.length + 1 + 1 < 2) := by omega
+    simp only [h2, if_false, decodeExtBaseOk, View.idx, index, List.getElem?_cons_zero,
+      List.getElem?_cons_succ, Res.bind_ok, View.len, List.length_cons]
+    by_cases hl' : rest.length + 1 + 1 < hl.toNat * 8 + 8
+    · simp [hl']
+    · simp only [hl', if_false]
+      rw [View.sliceTo_le _ _ (by simp [View.len]; omega),
+        View.sliceFrom_le _ _ (by simp [View.len]; omega)]
+      rfl
+
+theorem extBaseSpec_ok (b : Bytes) (e : ExtBase) (tr : Bool) (h : extBaseSpec b = (.ok e, tr)) :
+    8 ≤ e.actualLength ∧ e.actualLength ≤ b.length ∧ tr = false ∧
+    e.contents = b.take e.actualLength ∧ e.payload = b.drop e.actualLength ∧
+    e.actualLength = e.headerLength * 8 + 8 := by
+  unfold extBaseSpec at h
+  split at h
+  · dsimp only at h
+    split at h
+    · simp at h
+    · simp only [Prod.mk.injEq, Res.ok.injEq] at h
+      obtain ⟨h1, h2⟩ := h
+      subst h1
+      rename_i hlt
+      simp only [List.length_cons] at hlt
+      refine ⟨?_, ?_, h2.symm, rfl, rfl, rfl⟩
+      · show 8 ≤ _ * 8 + 8
+        omega
+      · show _ * 8 + 8 ≤ _
+        simp only [List.length_cons]; omega
+  · simp at h
+
+theorem extBaseSpec_ne_panic (b : Bytes) (k : PanicKind) : (extBaseSpec b).1 ≠ .panic k := by
+  unfold extBaseSpec
+  split
+  · dsimp only
+    split <;> simp
+  · simp
+
+/-! ## (*IPv6HopByHop).DecodeFromBytes / (*IPv6Destination).DecodeFromBytes: closed form -/
+
+def tlvExtSpec (old : TlvExt) (b : Bytes) : DecOut TlvExt :=
+  match extBaseSpec b with
+  | (.panic p, tr) => ⟨old, tr, .panic p⟩
+  | (.err e, tr) => ⟨{ old with base := ExtBase.zero }, tr, .err e⟩
+  | (.ok base, tr) =>
+    let r := tlvAreaSpec base.actualLength ((b.take base.actualLength).drop 2)
+    ⟨{ base := base, options := r.1 }, tr || r.2.1, r.2.2⟩
+
+theorem decodeTlvExt_eq_spec (k : ExtKind) (old : TlvExt) (v : View) :
+    decodeTlvExt k old v = tlvExtSpec old v.b := by
+  obtain ⟨b, x⟩ := v
+  unfold decodeTlvExt tlvExtSpec
+  rw [decodeExtBase_eq_spec]
+  match hb : extBaseSpec b with
+  | (.panic p, tr) => rfl
+  | (.err e, tr) => rfl
+  | (.ok base, tr) =>
+    obtain ⟨h8, hal, -, -, -, -⟩ := extBaseSpec_ok b base tr hb
+    simp only
+    rw [tlvLoop_eq_spec b x base.actualLength hal base.actualLength 2 (by omega)]
+    cases k <;> simp
+
+theorem tlvExtSpec_ne_panic (old : TlvExt) (b : Bytes) (k : PanicKind) :
+    (tlvExtSpec old b).res ≠ .panic k := by
+  unfold tlvExtSpec
+  match hb : extBaseSpec b with
+  | (.panic p, tr) => exact absurd (by rw [hb]) (extBaseSpec_ne_panic b p)
+  | (.err e, tr) => simp
+  | (.ok base, tr) =>
+    simp only
+    apply tlvAreaSpec_ne_panic
+    rw [List.length_drop, List.length_take]; omega
+
+/-- The result of a successful decode does not depend on the old layer at all. -/
+theorem tlvExtSpec_old (old old' : TlvExt) (b : Bytes) (h : (tlvExtSpec old b).res = .ok ()) :
+    tlvExtSpec old b = tlvExtSpec old' b := by
+  unfold tlvExtSpec at h ⊢
+  match hb : extBaseSpec b with
+  | (.panic p, tr) => rw [hb] at h; simp at h
+  | (.err e, tr) => rw [hb] at h; simp at h
+  | (.ok base, tr) => rfl
+
+theorem tlvExtSpec_ok (old : TlvExt) (b : Bytes) (h : (tlvExtSpec old b).res = .ok ()) :
+    8 ≤ (tlvExtSpec old b).layer.base.actualLength ∧
+    (tlvExtSpec old b).layer.base.actualLength ≤ b.length := by
+  unfold tlvExtSpec at h ⊢
+  match hb : extBaseSpec b with
+  | (.panic p, tr) => rw [hb] at h; simp at h
+  | (.err e, tr) => rw [hb] at h; simp at h
+  | (.ok base, tr) =>
+    obtain ⟨h8, hal, -, -, -, -⟩ := extBaseSpec_ok b base tr hb
+    exact ⟨h8, hal⟩
 
 end Gp.Ip6
